@@ -69,6 +69,7 @@ type input struct {
 	Dispatchers int       `json:"dispatchers,omitempty"`
 	MaxFlushes  int       `json:"maxflushes"`
 	Exp         [4]int64  `json:"exp"` // counter, timer, gauge, set expiry interval (ns; 0 = never)
+	HistLimit   int       `json:"histlimit"` // aggregator histogram bucket limit
 	Sched       uint64    `json:"sched"`
 	Batches     [][]dgram `json:"batches,omitempty"`
 	// agg
